@@ -38,6 +38,9 @@ func (e *Engine) mapKey(st *State, mt *types.Map, ref *Term, k Value) []*Term {
 
 // strID abstracts the content of a string by an uninterpreted 64-bit identity.
 func (e *Engine) strID(st *State, s []*Term) *Term {
+	if s[0].op == "uf" && s[0].name == "strkey.r" {
+		return s[0].args[0] // the key bound by vMapAll
+	}
 	if s[0].IsConst() && s[2].IsConst() {
 		if lit, ok := e.litByID[s[0].val.Uint64()]; ok && s[1].IsConst() {
 			o, n := s[1].val.Uint64(), s[2].val.Uint64()
